@@ -80,6 +80,13 @@ def _probe(tb, case):
         xor = tb.us(x)
     except ValueError:
         xor = None
+    # neighbours one tick away (either bound, either direction) are different segments: never equal, strictly ordered,
+    # two members of a set - also on the decimal grids of the precision regimes, where a tick is not a power of two
+    if max(abs(v) for v in case["a"]) < 1 << 40:
+        for d0, d1 in ((1, 0), (0, 1), (-1, 0), (0, -1), (1, 1)):
+            n_ = tb.S([case["a"][0] + d0, case["a"][1] + d1])
+            assert not (a == n_) and (a != n_), "segments one tick apart compare equal: %r %r" % (a, n_)
+            assert (a < n_) != (n_ < a) and len({a, n_}) == 2 and (a <= n_) != (n_ <= a), "one tick apart: order / set membership inconsistent: %r %r" % (a, n_)
     return {
         "bool": bool(a), "dur": tb.u(a.duration), "mid2": tb.u(a.middle, 2),
         "and": tb.us(a & b), "or": tb.us(a | b), "xor": xor,
